@@ -39,12 +39,6 @@ INJ = {
          'assigns': 'i, __CPROVER_object_whole(self->m_data)',
          'invariants': ['n <= i && i <= oldsize', 'C02_INV_RSS_K(self, n, i)', 'C02_INV_RSS_J(self, n, i)'],
          'decreases': 'oldsize - i'}],
-    'ER': [
-        {'file': F, 'func': 'vector_erase_range', 'ghost': 'g_snap_take(&g_er, self->m_data);', 'at': 'func-begin'},
-        {'file': F, 'func': 'vector_erase_range', 'loop': 0, 'expect': 'for (',
-         'assigns': 'i, __CPROVER_object_whole(self->m_data)',
-         'invariants': ['i <= sz', 'C02_INV_ER_K(self, first, i)', 'C02_INV_ER_J(self, first, i)'],
-         'decreases': 'sz - i'}],
     'CCC': [   # copy constructor
         {'file': F, 'func': 'vector_ctor_copy', 'ghost': 'g_snap_take(&g_cc, other->m_data);', 'at': 'func-begin'},
         {'file': F, 'func': 'vector_ctor_copy', 'loop': 0, 'expect': 'for (',
@@ -74,17 +68,10 @@ INJ = {
     'NOREALLOC': [
         {'file': F, 'func': 'vector_changeBuffer', 'at': 'func-begin',
          'ghost': '__CPROVER_assert(REALLOC != 0, "value: no reallocation while the new size() fits capacity()"); __CPROVER_assume(REALLOC != 0);'}],
-    # known-finding waiver windows (see spec/c02_vec.h): the raw slot end()-1 that insert/emplace (move-)assign into
-    'W_INSERT': [
-        {'file': F, 'func': 'vector_insert', 'at': 'after', 'anchor': 'self->m_size++;',
-         'ghost': 'g_lt_wbase = self->m_data; g_lt_wlo[0] = self->m_size - 1; g_lt_whi[0] = (KF_C02_insert_raw_slot == 1) ? self->m_size : g_lt_wlo[0];'},
-        {'file': F, 'func': 'vector_insert', 'at': 'after', 'anchor': 'ELEM_copy_assign(first, value);', 'ghost': 'g_lt_wlo[0] = 0; g_lt_whi[0] = 0;'}],
-    'W_EMPLACE': [
-        {'file': F, 'func': 'vector_emplace', 'at': 'after', 'anchor': 'self->m_size++;',
-         'ghost': 'g_lt_wbase = self->m_data; g_lt_wlo[0] = self->m_size - 1; g_lt_whi[0] = (KF_C02_insert_raw_slot == 1) ? self->m_size : g_lt_wlo[0];'},
-        {'file': F, 'func': 'vector_emplace', 'at': 'before', 'anchor': 'ELEM_construct_value(first, args);',
-         'ghost': 'g_lt_wlo[0] = 0; g_lt_whi[0] = 0; g_lt_wlo[1] = _pos; g_lt_whi[1] = (KF_C02_emplace_over_live == 1) ? _pos + 1 : _pos;'},
-        {'file': F, 'func': 'vector_emplace', 'at': 'after', 'anchor': 'ELEM_construct_value(first, args);', 'ghost': 'g_lt_wlo[1] = 0; g_lt_whi[1] = 0;'}],
+    # repaired insert(pos, value): its temporary copy lives in raw local storage; it must be destroyed before it goes out of scope
+    'TMPCHK': [
+        {'file': F, 'func': 'vector_insert', 'at': 'before', 'anchor': 'self->m_size++;',
+         'ghost': '__CPROVER_assert((tmpbuf[0] & 3) == ELEM_RAW, "lifetime: insert(pos, x): the temporary copy of x is destroyed before its storage goes out of scope");'}],
 }
 
 COMMON_ASSUME = [
@@ -125,6 +112,6 @@ for name, (meta, body) in UNITS.items():
     if len(sys.argv) > 1 and name not in sys.argv[1:]:
         continue
     txt = '/*@unit ' + pprint.pformat(meta, width=150, sort_dicts=False) + ' @*/\n'
-    txt += '/* generated by units/C02/tools/gen_units.py from tools/unit_table.py */\n#include "vc.h"\n#include "cxx/igris_vector.c"\n' + body.lstrip('\n')
+    txt += '/* generated by units/C02/tools/gen_units.py from tools/unit_table.py */\n' + ('#if defined(REALLOC) && REALLOC == 0\n#define C02_NO_J 1   /* no reallocation: the source slots are read in their pre-state, one tracked index is enough */\n#endif\n' if 'REALLOC' in str(meta.get('params', '')) else '') + '#include "vc.h"\n#include "cxx/igris_vector.c"\n' + body.lstrip('\n')
     open(os.path.join(HERE, name + '.c'), 'w').write(txt)
     print('wrote', name)
